@@ -121,8 +121,9 @@ def world(case):
         W["da"] = da
         W["dao"] = xr.DataArray(np.arange(15.).reshape(3, 5) ** 1.1, dims=["yc", "xo"], name="flux")
         W["dai"] = xr.DataArray((np.arange(12.).reshape(3, 4) * 7) % 5, dims=["yc", "xc"], name="w")
-        W["boundary"] = {"X": "extend", "Y": "fill"}
-        W["fill"] = {"X": 1.5, "Y": -1.0}
+        # half of the worlds use mappings that do not name every axis (the Grid's defaults fill in)
+        W["boundary"] = {"X": "extend"} if case["periodic"] else {"X": "extend", "Y": "fill"}
+        W["fill"] = {"Y": -1.0} if case["periodic"] else {"X": 1.5, "Y": -1.0}
         W["to"] = {"X": "left", "Y": "left"}
         W["bw"] = {"X": (1, 2), "Y": (0, 1)}
         W["mw"] = ("X", "Y")
